@@ -92,6 +92,11 @@ def AxOK (l : Layout) (seg ax : Int) : Prop := l.minAx seg ≤ ax ∧ ax ≤ l.m
 def ViewOK (l : Layout) (view : Int) : Prop := l.minView ≤ view ∧ view ≤ l.maxView
 def TofOK (l : Layout) (tof : Int) : Prop := l.minTof ≤ tof ∧ tof ≤ l.maxTof
 
+instance (l : Layout) (s : Int) : Decidable (SegOK l s) := by unfold SegOK; infer_instance
+instance (l : Layout) (s a : Int) : Decidable (AxOK l s a) := by unfold AxOK; infer_instance
+instance (l : Layout) (v : Int) : Decidable (ViewOK l v) := by unfold ViewOK; infer_instance
+instance (l : Layout) (k : Int) : Decidable (TofOK l k) := by unfold TofOK; infer_instance
+
 /-- no empty dimension (true of every `ProjDataInfo`) -/
 structure Layout.Pos (l : Layout) : Prop where
   views : 0 < l.numViews
